@@ -1304,10 +1304,86 @@ def _call_may_change(call, operand_names):
 _PARAMS_BY_NAME = {}
 
 
+_BUILTIN_BASES = {"dict": dict, "list": list, "object": object, "set": set, "tuple": tuple, "str": str, "Exception": Exception}
+
+
+def flatten_new_bases(modname, tree, inv):
+    """N19: a NEW class of this module (none of its functions is in the reviewed inventory) that is used for nothing but as a base
+    class (a mixin, a pulled-up base): its methods are copied into each class deriving from it and it is dropped from their bases.
+    Sound when the methods do not use super()/__class__, the new class has no bases of its own (or only `object`), holds nothing but
+    methods, and no base listed BEFORE it in a subclass defines a copied name (the copy must win exactly where the mixin won)."""
+    if inv is None:
+        return 0
+    classes = {c.name: c for c in tree.body if isinstance(c, ast.ClassDef)}
+    n_done = 0
+    for bname, B in list(classes.items()):
+        if any(k.startswith(f"{modname}:{bname}.") for k in inv) or B.decorator_list or B.keywords:
+            continue
+        if any(not (isinstance(b, ast.Name) and b.id == "object") for b in B.bases):
+            continue
+        items = [x for x in B.body if not (isinstance(x, ast.Pass) or (isinstance(x, ast.Expr) and isinstance(x.value, ast.Constant)))]
+        if not items or not all(isinstance(x, FUNC) for x in items):
+            continue
+        if any(isinstance(n, ast.Name) and n.id in ("super", "__class__") for x in items for n in ast.walk(x)):
+            continue
+        inside = {id(x) for x in ast.walk(B)}
+        mentions = [x for x in ast.walk(tree) if id(x) not in inside and ((isinstance(x, ast.Name) and x.id == bname) or (isinstance(x, ast.Attribute) and x.attr == bname))]
+        subs = [c for c in classes.values() if any(isinstance(b, ast.Name) and b.id == bname for b in c.bases)]
+        base_mentions = {id(b) for c in subs for b in c.bases if isinstance(b, ast.Name) and b.id == bname}
+        if not subs or any(id(x) not in base_mentions for x in mentions):
+            continue
+        names = {x.name for x in items}
+        ok = True
+        # nobody below may reach the base through super(): derive the set of classes below the new base
+        below, grew = {bname}, True
+        while grew:
+            grew = False
+            for cn, c in classes.items():
+                if cn not in below and any(isinstance(b, ast.Name) and b.id in below for b in c.bases):
+                    below.add(cn)
+                    grew = True
+        if any(isinstance(n, ast.Name) and n.id in ("super", "__class__") for cn in below if cn != bname for n in ast.walk(classes[cn])):
+            continue
+        for c in subs:
+            for b in c.bases:
+                if isinstance(b, ast.Name) and b.id == bname:
+                    break
+                # a base listed before the mixin: it must not define any of the names
+                if isinstance(b, ast.Name) and b.id in _BUILTIN_BASES:
+                    if names & set(dir(_BUILTIN_BASES[b.id])):
+                        ok = False
+                elif isinstance(b, ast.Name) and b.id in classes:
+                    if names & {x.name for x in ast.walk(classes[b.id]) if isinstance(x, FUNC)}:
+                        ok = False
+                else:
+                    ok = False
+        if not ok:
+            continue
+        for c in subs:
+            own = {x.name for x in c.body if isinstance(x, FUNC)} | {t.id for x in c.body if isinstance(x, ast.Assign) for t in x.targets if isinstance(t, ast.Name)}
+            add = [copy.deepcopy(x) for x in items if x.name not in own]
+            # keep a leading docstring in place
+            at = 1 if c.body and isinstance(c.body[0], ast.Expr) and isinstance(c.body[0].value, ast.Constant) else 0
+            c.body[at:at] = add
+            c.bases = [b for b in c.bases if not (isinstance(b, ast.Name) and b.id == bname)]
+        tree.body[tree.body.index(B)] = ast.copy_location(ast.Pass(), B)
+        n_done += 1
+    return n_done
+
+
+FLATTENED = {}
+
+
 def prepare(trees):
     """called once per repository load, before the modules are normalised.  trees: {module name: ast.Module} (or a list of trees)"""
     renames = {}
     if isinstance(trees, dict):
+        FLATTENED.clear()
+        inv = inventory()
+        for mod, tree in trees.items():
+            k = flatten_new_bases(mod, tree, inv)
+            if k:
+                FLATTENED[mod] = k
         renames = undo_renames(trees)
         trees = list(trees.values())
     _prepare_summaries(trees)
@@ -2604,6 +2680,156 @@ def _fold_repeated_tests(fn, inherited=frozenset()):
     return n
 
 
+# ------------------------------------------------------------------ N20 new read-only properties used only on self -> methods
+
+def _properties_to_methods(modname, tree, inv):
+    """a NEW `@property def p(self)` whose every mention in the module is a read `self.p` inside the class that defines it:
+    the decorator goes and each read becomes the call `self.p()` - which the inliner then treats like any other new helper"""
+    if inv is None:
+        return 0
+    n_done = 0
+    for cls in [c for c in ast.walk(tree) if isinstance(c, ast.ClassDef)]:
+        for m in [x for x in cls.body if isinstance(x, ast.FunctionDef)]:
+            if not (len(m.decorator_list) == 1 and isinstance(m.decorator_list[0], ast.Name) and m.decorator_list[0].id == "property"):
+                continue
+            if f"{modname}:{cls.name}.{m.name}" in inv or len(m.args.args) != 1:
+                continue
+            if sum(1 for x in cls.body if isinstance(x, ast.FunctionDef) and x.name == m.name) != 1:
+                continue            # setter / deleter
+            own = {id(x) for x in ast.walk(cls)}
+            sites, ok = [], True
+            parents = {}
+            for p_ in ast.walk(tree):
+                for c in ast.iter_child_nodes(p_):
+                    parents[id(c)] = p_
+            for x in ast.walk(tree):
+                if isinstance(x, ast.Attribute) and x.attr == m.name:
+                    if id(x) in own and isinstance(x.ctx, ast.Load) and isinstance(x.value, ast.Name) and x.value.id == "self" and \
+                            not (isinstance(parents.get(id(x)), ast.Call) and parents[id(x)].func is x):
+                        sites.append(x)
+                    else:
+                        ok = False
+                elif isinstance(x, ast.Constant) and x.value == m.name:
+                    ok = False          # getattr(obj, "p") and the like
+            if not ok or not sites:
+                continue
+            # subclasses in this module must not redefine the name
+            if any(isinstance(c, ast.ClassDef) and c is not cls and any(isinstance(f_, FUNC) and f_.name == m.name for f_ in c.body) for c in ast.walk(tree)):
+                continue
+            m.decorator_list = []
+            for x in sites:
+                call = ast.copy_location(ast.Call(func=ast.Attribute(value=ast.Name(id="self", ctx=ast.Load()), attr=m.name, ctx=ast.Load()), args=[], keywords=[]), x)
+                _replace_node(tree, x, call)
+            n_done += 1
+    if n_done:
+        ast.fix_missing_locations(tree)
+    return n_done
+
+
+# ------------------------------------------------------------------ N21 new wrapping decorators are applied to the text
+
+def _apply_new_decorators(modname, tree, inv):
+    """`def deco(method): @wraps(method) def w(self, *args, **kwargs): <pre>; return method(self, *args, **kwargs)  [inside with/try]; return w`
+    with deco NEW: a function decorated with it becomes that function with the wrapper's text around its body (`with self.lock: body`,
+    `assert ...; body`).  The wrapper must forward exactly (self, *args, **kwargs), call the method once, in return position, and use
+    args/kwargs for nothing else."""
+    if inv is None:
+        return 0
+    decos = {}
+    for f in [x for x in tree.body if isinstance(x, ast.FunctionDef)]:
+        if f"{modname}:{f.name}" in inv or f.decorator_list or len(f.args.args) != 1 or f.args.vararg or f.args.kwarg:
+            continue
+        b = _helper_body(f)
+        if len(b) != 2 or not isinstance(b[0], ast.FunctionDef) or not (isinstance(b[1], ast.Return) and isinstance(b[1].value, ast.Name) and b[1].value.id == b[0].name):
+            continue
+        w, mname = b[0], f.args.args[0].arg
+        if any(not (isinstance(d, ast.Call) and _dotted(d.func) in ("functools.wraps", "wraps") and len(d.args) == 1 and isinstance(d.args[0], ast.Name) and d.args[0].id == mname)
+               for d in w.decorator_list):
+            continue
+        a = w.args
+        if a.kwonlyargs or a.posonlyargs or a.defaults or not a.vararg or not a.kwarg or len(a.args) > 1:
+            continue
+        selfname = a.args[0].arg if a.args else None
+        va, kw = a.vararg.arg, a.kwarg.arg
+        calls = [c for c in ast.walk(w) if isinstance(c, ast.Call) and isinstance(c.func, ast.Name) and c.func.id == mname]
+        if len(calls) != 1:
+            continue
+        c = calls[0]
+        want = ([selfname] if selfname else [])
+        got = [x.id for x in c.args if isinstance(x, ast.Name)]
+        star = [x for x in c.args if isinstance(x, ast.Starred)]
+        if got != want or len(star) != 1 or not (isinstance(star[0].value, ast.Name) and star[0].value.id == va) or len(c.args) != len(want) + 1 or \
+                len(c.keywords) != 1 or c.keywords[0].arg is not None or not (isinstance(c.keywords[0].value, ast.Name) and c.keywords[0].value.id == kw):
+            continue
+        uses = [x for x in ast.walk(w) if isinstance(x, ast.Name) and x.id in (va, kw, mname)]
+        if len(uses) != 3 + len(w.decorator_list):
+            continue          # args / kwargs / the method are used for something besides the one forwarding call
+        # the call is the value of a `return` statement
+        ret = next((r for r in ast.walk(w) if isinstance(r, ast.Return) and r.value is c), None)
+        if ret is None or any(isinstance(x, FUNC + (ast.Lambda,)) for x in ast.walk(w) if x is not w):
+            continue
+        if any(isinstance(x, (ast.For, ast.AsyncFor, ast.While)) and any(y is ret for y in ast.walk(x)) for x in ast.walk(w)):
+            continue
+        decos[f.name] = (f, w, selfname, ret)
+    if not decos:
+        return 0
+    n_done = 0
+    for fn in [x for x in ast.walk(tree) if isinstance(x, ast.FunctionDef)]:
+        while fn.decorator_list and isinstance(fn.decorator_list[-1], ast.Name) and fn.decorator_list[-1].id in decos:
+            f, w, selfname, ret = decos[fn.decorator_list[-1].id]
+            if fn.args.vararg and False:
+                break
+            own_first = fn.args.args[0].arg if fn.args.args else None
+            if selfname and own_first is None:
+                break
+            # names: the wrapper's locals must not collide with the function's
+            wl = {x.id for x in ast.walk(w) if isinstance(x, ast.Name) and isinstance(x.ctx, (ast.Store, ast.Del))}
+            fl = {x.id for x in ast.walk(fn) if isinstance(x, ast.Name)} | {a_.arg for a_ in fn.args.args}
+            if wl & fl:
+                break
+            if _would_capture(w, fn):
+                break
+            wbody = [copy.deepcopy(s_) for s_ in _helper_body(w)]
+            body = list(fn.body)
+            doc = []
+            if body and isinstance(body[0], ast.Expr) and isinstance(body[0].value, ast.Constant) and isinstance(body[0].value.value, str):
+                doc, body = [body[0]], body[1:]
+            if not _always_returns(body):
+                body = body + [ast.copy_location(ast.Return(value=ast.Constant(value=None)), fn)]
+            done = [False]
+
+            def splice(stmts):
+                out = []
+                for s_ in stmts:
+                    if isinstance(s_, ast.Return) and isinstance(s_.value, ast.Call) and isinstance(s_.value.func, ast.Name) and s_.value.func.id == f.args.args[0].arg:
+                        out += body
+                        done[0] = True
+                        continue
+                    for fld in ("body", "orelse", "finalbody"):
+                        sub = getattr(s_, fld, None)
+                        if isinstance(sub, list) and sub and isinstance(sub[0], ast.stmt):
+                            setattr(s_, fld, splice(sub))
+                    for h in getattr(s_, "handlers", []) or []:
+                        h.body = splice(h.body)
+                    out.append(s_)
+                return out
+            new_body = splice(wbody)
+            if not done[0]:
+                break
+            if selfname and own_first != selfname:
+                new_body = [_Renamer({selfname: own_first}).visit(s_) if not any(s_ is b_ for b_ in body) else s_ for s_ in new_body]
+            fn.body = doc + new_body
+            fn.decorator_list.pop()
+            ast.fix_missing_locations(fn)
+            n_done += 1
+    if n_done:
+        for name, (f, *_r) in decos.items():
+            inside = {id(x) for x in ast.walk(f)}
+            if not any(isinstance(x, ast.Name) and x.id == name and id(x) not in inside for x in ast.walk(tree)) and f in tree.body:
+                tree.body[tree.body.index(f)] = ast.copy_location(ast.Pass(), f)
+    return n_done
+
+
 # ------------------------------------------------------------------ N7 nested ifs without else -> one conjunction
 
 def _merge_nested_ifs(fn):
@@ -2995,6 +3221,8 @@ def normalize(modname, tree):
     stats["module_constants"] = _propagate_module_constants(tree)
     inv = inventory()
     stats["context_managers"] = _rewrite_context_managers(modname, tree, inv)
+    stats["properties"] = _properties_to_methods(modname, tree, inv)
+    stats["decorators_applied"] = _apply_new_decorators(modname, tree, inv)
     stats["devirtualised"] = _devirtualise(modname, tree, inv)
     stats["objects_to_closures"] = _objects_to_closures(modname, tree, inv)
     stats["merged_defs"] = sum(_merge_conditional_defs(f_) for f_ in [x for x in ast.walk(tree) if isinstance(x, FUNC)])
